@@ -123,6 +123,120 @@ Section MatrixOk.
           assert (Nat.eqb j i = false) as -> by (apply Nat.eqb_neq; lia). simpl. left. reflexivity.
   Qed.
 
+  (* ---- every position is emitted at most once (TriMat::to_csr would otherwise add duplicates up) ---- *)
+  Definition pos (t : nat * nat * weight) : nat * nat := (fst (fst t), snd (fst t)).
+
+  Lemma nodup_app {X} (a b : list X) :
+    NoDup a -> NoDup b -> (forall x, In x a -> In x b -> False) -> NoDup (a ++ b).
+  Proof.
+    induction a as [|h t IH]; intros Ha Hb Hd; [exact Hb|]. simpl. inversion Ha as [|? ? Hni Ht]; subst.
+    constructor.
+    - rewrite in_app_iff. intros [H|H]; [exact (Hni H)|exact (Hd h (or_introl eq_refl) H)].
+    - apply IH; [exact Ht|exact Hb|]. intros x H1 H2. exact (Hd x (or_intror H1) H2).
+  Qed.
+
+  Lemma nodup_flat_map {X Y} (f : X -> list Y) : forall (l : list X),
+    NoDup l -> (forall x, In x l -> NoDup (f x)) ->
+    (forall x1 x2 y, In x1 l -> In x2 l -> In y (f x1) -> In y (f x2) -> x1 = x2) ->
+    NoDup (flat_map f l).
+  Proof.
+    induction l as [|a t IH]; intros Hl Hf Hinj; [constructor|]. simpl. inversion Hl as [|? ? Hni Ht]; subst.
+    apply nodup_app.
+    - apply Hf. left. reflexivity.
+    - apply IH; [exact Ht| |].
+      + intros x Hx. apply Hf. right. exact Hx.
+      + intros x1 x2 y H1 H2. apply Hinj; right; assumption.
+    - intros y H1 H2. apply in_flat_map in H2. destruct H2 as (x & Hx & Hy).
+      assert (a = x) by (apply (Hinj a x y); [left; reflexivity|right; exact Hx|exact H1|exact Hy]).
+      subst x. exact (Hni Hx).
+  Qed.
+
+  Lemma map_flat_map {X Y Z} (h : Y -> Z) (f : X -> list Y) (l : list X) :
+    map h (flat_map f l) = flat_map (fun x => map h (f x)) l.
+  Proof. induction l as [|a t IH]; simpl; [reflexivity|]. rewrite map_app, IH. reflexivity. Qed.
+
+  Lemma flat_map_flat_map {X Y Z} (f : X -> list Y) (h : Y -> list Z) (l : list X) :
+    flat_map h (flat_map f l) = flat_map (fun x => flat_map h (f x)) l.
+  Proof. induction l as [|a t IH]; simpl; [reflexivity|]. rewrite flat_map_app, IH. reflexivity. Qed.
+
+  Definition cells (g : gstate) : list (nat * nat * list edge) :=
+    flat_map (fun uv : nat * list (nat * list edge) =>
+                map (fun ve : nat * list edge => (fst uv, fst ve, snd ve)) (snd uv)) (edges_map g).
+
+  Lemma cells_group (g : gstate) u v es : WF g -> In (u, v, es) (cells g) -> group_idx g u v = Some es.
+  Proof.
+    intros W H. unfold cells in H. apply in_flat_map in H. destruct H as ((u' & hm) & H1 & H2).
+    apply in_map_iff in H2. destruct H2 as ((v' & es') & E & H2). simpl in E. inversion E; subst.
+    exact (in_edges_map_group g u hm v es W H1 H2).
+  Qed.
+
+  Lemma NoDup_keys_NoDup {K V} (m : list (K * V)) : NoDup (keys m) -> NoDup m.
+  Proof.
+    unfold keys. induction m as [|[k v] t IH]; intros H; [constructor|]. simpl in H. inversion H as [|? ? Hni Ht]; subst.
+    constructor; [|exact (IH Ht)]. intros Hin. apply Hni. change k with (fst (k, v)). apply in_map. exact Hin.
+  Qed.
+
+  Lemma cells_nodup (g : gstate) : WF g -> NoDup (cells g).
+  Proof.
+    intros W. destruct (wf_emkeys _ _ _ W) as (Hk & Hin). unfold cells. apply nodup_flat_map.
+    - apply NoDup_keys_NoDup. exact Hk.
+    - intros (u & hm) H. simpl.
+      pose proof (In_lookup Nat.eqb nat_eqb_spec _ _ _ Hk H) as L.
+      pose proof (NoDup_keys_NoDup hm (Hin u hm L)) as Hnd.
+      clear - Hnd. induction hm as [|[v es] t IH]; simpl; [constructor|]. inversion Hnd as [|? ? Hni Ht]; subst.
+      constructor; [|exact (IH Ht)]. intros Hc. apply in_map_iff in Hc. destruct Hc as ((v' & es') & E & Hc).
+      simpl in E. inversion E; subst. exact (Hni Hc).
+    - intros (u1 & hm1) (u2 & hm2) y H1 H2 Hy1 Hy2. simpl in Hy1, Hy2.
+      apply in_map_iff in Hy1. destruct Hy1 as ((v1 & es1) & E1 & _).
+      apply in_map_iff in Hy2. destruct Hy2 as ((v2 & es2) & E2 & _). subst y. simpl in E2. inversion E2; subst.
+      pose proof (In_lookup Nat.eqb nat_eqb_spec _ _ _ Hk H1) as L1.
+      pose proof (In_lookup Nat.eqb nat_eqb_spec _ _ _ Hk H2) as L2. congruence.
+  Qed.
+
+  Lemma triplets_cells (g : gstate) :
+    flat_map (fun uv : nat * list (nat * list edge) =>
+                flat_map (fun ve : nat * list edge => entries (sp g) (fst uv) (fst ve) (snd ve)) (snd uv)) (edges_map g)
+    = flat_map (fun c : nat * nat * list edge => entries (sp g) (fst (fst c)) (snd (fst c)) (snd c)) (cells g).
+  Proof.
+    unfold cells. rewrite flat_map_flat_map. apply flat_map_ext. intros (u & hm). simpl.
+    induction hm as [|[v es] t IH]; simpl; [reflexivity|]. rewrite IH. reflexivity.
+  Qed.
+
+  Theorem matrix_positions_nodup (g : gstate) tr :
+    WF g -> multi (sp g) = false -> matrix_triplets g = Ok tr -> NoDup (map pos tr).
+  Proof.
+    intros W Hm Htr. unfold matrix_triplets in Htr. rewrite Hm in Htr.
+    rewrite (outer_fold (sp g) (edges_map g) []) in Htr.
+    2:{ intros u hm v es H1 H2. pose proof (in_edges_map_group g u hm v es W H1 H2) as Hg.
+        apply (group_idx_grp g u v es W) in Hg. eapply grp_of_nonempty; [exact W|apply Hg]. }
+    simpl in Htr. inversion Htr as [E]. clear Htr E. rewrite triplets_cells, map_flat_map.
+    apply nodup_flat_map.
+    - exact (cells_nodup g W).
+    - intros ((u & v) & es) Hc. simpl. unfold entries. destruct es as [|e es']; [constructor|]. simpl.
+      destruct (negb (directed (sp g)) && negb (Nat.eqb u v)) eqn:Eb; simpl.
+      + apply andb_true_iff in Eb. destruct Eb as (_ & Hne). apply negb_true_iff, Nat.eqb_neq in Hne.
+        constructor; [|constructor; [intros []|constructor]]. intros [H|[]]. inversion H. congruence.
+      + constructor; [intros []|constructor].
+    - intros ((u1 & v1) & es1) ((u2 & v2) & es2) y Hc1 Hc2 Hy1 Hy2. simpl in Hy1, Hy2.
+      pose proof (cells_group g u1 v1 es1 W Hc1) as G1. pose proof (cells_group g u2 v2 es2 W Hc2) as G2.
+      destruct (group_idx_grp g u1 v1 es1 W G1) as (_ & O1). destruct (group_idx_grp g u2 v2 es2 W G2) as (_ & O2).
+      assert (Hpos : forall u v (es : list edge) y, In y (map pos (entries (sp g) u v es)) ->
+                y = (u, v) \/ (y = (v, u) /\ directed (sp g) = false /\ u <> v)).
+      { intros u v es y0 H. unfold entries in H. destruct es as [|e es']; [destruct H|]. simpl in H.
+        destruct H as [H|H]; [left; symmetry; exact H|].
+        destruct (negb (directed (sp g)) && negb (Nat.eqb u v)) eqn:Eb; [|destruct H].
+        apply andb_true_iff in Eb. destruct Eb as (Hd & Hne). apply negb_true_iff in Hd.
+        apply negb_true_iff, Nat.eqb_neq in Hne. destruct H as [H|[]]. right. split; [symmetry; exact H|split; assumption]. }
+      apply Hpos in Hy1. apply Hpos in Hy2.
+      assert (Huv : u1 = u2 /\ v1 = v2).
+      { destruct Hy1 as [->|(-> & Hd1 & Hn1)]; destruct Hy2 as [E|(E & Hd2 & Hn2)]; inversion E; subst.
+        - split; reflexivity.
+        - destruct O1 as [O1|O1]; [congruence|]. destruct O2 as [O2|O2]; [congruence|]. split; lia.
+        - destruct O1 as [O1|O1]; [congruence|]. destruct O2 as [O2|O2]; [congruence|]. split; lia.
+        - split; reflexivity. }
+      destruct Huv as (-> & ->). rewrite G1 in G2. inversion G2. reflexivity.
+  Qed.
+
   (* symmetric for undirected graphs *)
   Corollary matrix_symmetric (g : gstate) tr i j w :
     WF g -> multi (sp g) = false -> directed (sp g) = false ->
